@@ -1,6 +1,7 @@
 package main
 
 import (
+	"bytes"
 	"bufio"
 	"encoding/binary"
 	"encoding/json"
@@ -266,6 +267,9 @@ func init() {
 	// decode: documents x destination types x configs
 	xsuites["dec"] = &xsuite{"dec", func(c *ev.Ctx, thorough bool, emit func(func() string, string) bool) {
 		c01docs(c, thorough, func(doc []byte) bool {
+			if tailDependent(doc) {
+				return true
+			}
 			for ti := range dests {
 				for ci := range cfgs {
 					cfg := &cfgs[ci]
@@ -293,7 +297,7 @@ func init() {
 		c01docs(c, thorough, func(doc []byte) bool {
 			valid := json.Valid(doc) && !docFiltered(doc)
 			malformed := !lenientValid(doc)
-			if !valid && !malformed {
+			if (!valid && !malformed) || tailDependent(doc) {
 				return true
 			}
 			for ti := range dests {
@@ -476,6 +480,9 @@ func init() {
 			}
 			for pad := 0; pad < 40; pad++ {
 				doc := strings.Repeat(" ", pad) + l + strings.Repeat(" ", (pad*7)%5)
+				if tailDependent([]byte(doc)) {
+					doc += " "
+				}
 				var f float64
 				var i64 int64
 				var u8 uint8
@@ -494,6 +501,14 @@ func init() {
 		}
 	}}
 }
+
+// tailDependent: the document ends in "-0". The pre-assembled number scanner reads one byte
+// past such an input (check_leading_zero in native/scanning.h tests s[i+1] with i+1 == n) and
+// the sign of the zero it returns depends on that byte (known finding of C05, where the byte
+// is controlled). The entry points used by the cross-configuration suites copy the input to
+// the Go heap first, so the byte is whatever the allocator left there and the observation is
+// not a function of the case: such documents cannot be compared between two processes.
+func tailDependent(doc []byte) bool { return bytes.HasSuffix(doc, []byte("-0")) }
 
 // xkeyShape: the key of a cross-configuration mismatch = shape of the case id + classes of
 // the two observations.
